@@ -122,6 +122,12 @@ pub enum Op {
     ListGet(u8, Ix, bool),
     ListSet(u8, Ix, u8),
     ListRemove(u8, Ix),
+    /// push a *borrowed* entry of the list (pointer from get_list_entry_at at u16-index) onto the same list
+    ListPushOwn(u8, u16),
+    /// overwrite entry i of the list with a borrowed entry j of the same list
+    ListSetOwn(u8, u16, u16),
+    /// insert a borrowed entry of the dict (the n-th key) under another key of the same dict
+    DictInsertOwn(u8, u16, Txt),
     DictLen(u8),
     DictKeys(u8, u8),
     DictInsert(u8, Txt, u8),
@@ -173,6 +179,9 @@ impl Op {
             DictLen(s) => json!(["DictLen", s]),
             DictKeys(d, r) => json!(["DictKeys", d, r]),
             DictInsert(d, k, e) => json!(["DictInsert", d, k.to_json(), e]),
+            ListPushOwn(l, i) => json!(["ListPushOwn", l, i]),
+            ListSetOwn(l, i, j) => json!(["ListSetOwn", l, i, j]),
+            DictInsertOwn(d, n, k) => json!(["DictInsertOwn", d, n, k.to_json()]),
             DictGet(d, k, n) => json!(["DictGet", d, k.to_json(), n]),
             DictRemove(d, k) => json!(["DictRemove", d, k.to_json()]),
             GridLen(s) => json!(["GridLen", s]),
@@ -223,6 +232,9 @@ impl Op {
             "ListGet" => ListGet(u8_(1), ix(2), b(3)),
             "ListSet" => ListSet(u8_(1), ix(2), u8_(3)),
             "ListRemove" => ListRemove(u8_(1), ix(2)),
+            "ListPushOwn" => ListPushOwn(u8_(1), u(2) as u16),
+            "ListSetOwn" => ListSetOwn(u8_(1), u(2) as u16, u(3) as u16),
+            "DictInsertOwn" => DictInsertOwn(u8_(1), u(2) as u16, t(3)),
             "DictLen" => DictLen(u8_(1)),
             "DictKeys" => DictKeys(u8_(1), u8_(2)),
             "DictInsert" => DictInsert(u8_(1), t(2), u8_(3)),
@@ -244,7 +256,7 @@ impl Op {
         })
     }
     pub fn is_container_mutation(&self) -> bool {
-        matches!(self, Op::ListPush(..) | Op::ListSet(..) | Op::ListRemove(..) | Op::DictInsert(..) | Op::DictRemove(..))
+        matches!(self, Op::ListPush(..) | Op::ListSet(..) | Op::ListRemove(..) | Op::DictInsert(..) | Op::DictRemove(..) | Op::ListPushOwn(..) | Op::ListSetOwn(..) | Op::DictInsertOwn(..))
     }
     pub fn is_container_read(&self) -> bool {
         matches!(self, Op::ListLen(_) | Op::ListGet(..) | Op::DictLen(_) | Op::DictKeys(..) | Op::DictGet(..) | Op::ToZinc(_) | Op::ToJson(_) | Op::GridFromRows(..))
@@ -345,6 +357,9 @@ pub fn op() -> BoxedStrategy<Op> {
         4 => (slot(), ix(), any::<bool>()).prop_map(|(l, i, n)| ListGet(l, i, n)),
         4 => (slot(), ix(), slot()).prop_map(|(l, i, e)| ListSet(l, i, e)),
         3 => (slot(), ix()).prop_map(|(l, i)| ListRemove(l, i)),
+        3 => (slot(), any::<u16>()).prop_map(|(l, i)| ListPushOwn(l, i)),
+        1 => (slot(), any::<u16>(), any::<u16>()).prop_map(|(l, i, j)| ListSetOwn(l, i, j)),
+        2 => (slot(), any::<u16>(), txt()).prop_map(|(d, n, k)| DictInsertOwn(d, n, k)),
         2 => slot().prop_map(DictLen),
         3 => (slot(), slot()).prop_map(|(d, r)| DictKeys(d, r)),
         5 => (slot(), txt(), slot()).prop_map(|(d, k, e)| DictInsert(d, k, e)),
@@ -943,6 +958,83 @@ impl Machine {
                         _ => None,
                     };
                     self.expect_rt(got, want, op)
+                }
+                ListPushOwn(l, i) | ListSetOwn(l, i, _) => {
+                    // the protocol lets a borrowed entry pointer be used while its container is alive and
+                    // unmodified - e.g. as the `entry` argument of a call on that same container
+                    let l = &self.sel(*l, W::List);
+                    let len = match self.m(*l) {
+                        Some(Value::List(x)) => x.len(),
+                        _ => 0,
+                    };
+                    if len == 0 {
+                        return Verdict::Pass;
+                    }
+                    let src = idx(*i, len);
+                    let mut out: *const Value = std::ptr::null();
+                    if c_api::list::haystack_value_get_list_entry_at(self.h(*l), src, &mut out) != ResultType::TRUE || out.is_null() {
+                        bail!(op, "{:?}: get_list_entry_at({src} of {len}) failed", op.to_json());
+                    }
+                    let (got, want) = match op {
+                        ListSetOwn(_, _, j) => {
+                            let dst = idx(*j, len);
+                            let got = c_api::list::haystack_value_set_list_entry_at(self.h(*l), dst, out as *mut Value);
+                            if let Some(Value::List(list)) = &mut self.model[*l as usize % SLOTS] {
+                                let v = list[src].clone();
+                                list[dst] = v;
+                            }
+                            (got, Some(true))
+                        }
+                        _ => {
+                            let got = c_api::list::haystack_value_push_list_entry(self.h(*l), out);
+                            if let Some(Value::List(list)) = &mut self.model[*l as usize % SLOTS] {
+                                let v = list[src].clone();
+                                list.push(v);
+                            }
+                            (got, Some(true))
+                        }
+                    };
+                    let v = self.expect_rt(got, want, op);
+                    if v.is_fail() {
+                        return v;
+                    }
+                    // the whole list is read back (a stale entry pointer shows as a wrong element even without ASan)
+                    if let (Some(Value::List(list)), false) = (self.m(*l).cloned(), self.h(*l).is_null()) {
+                        if !eq_val(&*self.h(*l), &Value::List(list)) {
+                            bail!(op, "{:?}: the list differs from the model afterwards: {}", op.to_json(), render(&project(&*self.h(*l))));
+                        }
+                    }
+                    v
+                }
+                DictInsertOwn(d, n, k) => {
+                    let d = &self.sel(*d, W::Dict);
+                    let keys: Vec<String> = match self.m(*d) {
+                        Some(Value::Dict(x)) => x.keys().cloned().collect(),
+                        _ => vec![],
+                    };
+                    let (Some(dst), false) = (k.as_str(), keys.is_empty()) else { return Verdict::Pass };
+                    let src = keys[idx(*n, keys.len())].clone();
+                    let Ok(csrc) = std::ffi::CString::new(src.clone()) else { return Verdict::Pass };
+                    let mut out: *const Value = std::ptr::null();
+                    if c_api::dict::haystack_value_get_dict_entry(self.h(*d), csrc.as_ptr(), &mut out) != ResultType::TRUE || out.is_null() {
+                        bail!(op, "{:?}: get_dict_entry({src:?}) failed", op.to_json());
+                    }
+                    let c = k.cstring();
+                    let got = c_api::dict::haystack_value_insert_dict_entry(self.h(*d), c.as_ref().map_or(std::ptr::null(), |c| c.as_ptr()), out);
+                    if let Some(Value::Dict(dict)) = &mut self.model[*d as usize % SLOTS] {
+                        let v = dict.get(&src).cloned().unwrap();
+                        dict.insert(dst, v);
+                    }
+                    let v = self.expect_rt(got, Some(true), op);
+                    if v.is_fail() {
+                        return v;
+                    }
+                    if let (Some(Value::Dict(dict)), false) = (self.m(*d).cloned(), self.h(*d).is_null()) {
+                        if !eq_val(&*self.h(*d), &Value::Dict(dict)) {
+                            bail!(op, "{:?}: the dict differs from the model afterwards: {}", op.to_json(), render(&project(&*self.h(*d))));
+                        }
+                    }
+                    v
                 }
                 ListRemove(l, i) => {
                     let l = &self.sel(*l, W::List);
